@@ -329,8 +329,8 @@ prop('C01', 'Minified module behaves exactly like the original (safe options)', 
               'the stage contracts of C02, C03, C04, C05, C06, C07 (re-run as part of this check)'],
      explanation='Conditional proof: (1) the syntactic stage contracts of every transform, the renamer, the hoister, the folder and the printer are re-discharged; '
                  '(2) minify() is proved to run each stage under its own option, in dependency order, on the one parsed module; (3) a z3 lemma composes the stage '
-                 'equivalences for every subset of enabled stages. The semantic adequacy of each rewrite schema is an axiom; two side conditions are not '
-                 'established by the code and are open known findings (KF-14 shadowed object, KF-15 effectful annotation); a third (posargs with **kwargs) was repaired (fix 7a1a7a4). The '
+                 'equivalences for every subset of enabled stages. The semantic adequacy of each rewrite schema is an axiom; one side condition is not '
+                 'established by the code and is an open known finding (KF-15 effectful annotation); two others were repaired (posargs with **kwargs: 7a1a7a4; shadowed object base: 3bb1e82). The '
                  'behaviour oracle of the bounded sweep (run original and minified program) stands behind the axioms.')
 
 
